@@ -1,4 +1,5 @@
 import Ldlm.Proofs.SessionEnd
+import Ldlm.Proofs.CoreMain
 /-!
 C06 — Session end releases exactly that session's holds, whatever is in flight.
 
@@ -16,8 +17,9 @@ one step per call into a manager, EVERY schedule.  `DestroySession` is pinned to
 * `no_panic_branch` — the model's `RemoveLock` (C2, U2) is total: after the `fix:` for D2/D10
   (e6a606e) it no longer panics on a missing entry; stated as: every enabled step is defined by
   the same function on every state, there is no error branch to reach.
-* `noclear_keeps`   — with no-clear-on-disconnect `LockServer.DestroySession` returns right after D1:
-  table and timers untouched (in M2: `C08`/`Core.destroy`).
+* `noclear_keeps`   — with no-clear-on-disconnect a session end (M2's `disconnect`, for EVERY state):
+  every lease timer is kept as it is and every lock keeps its size and its holders (only blocked
+  calls of the ended session leave the queues): the holds stay until unlocked by key or lease expiry.
 * K2 (known finding, stays): `late_grant_leaks` — a grant between G1 and G2 when D1 runs re-creates
   the deleted entry and the hold is never released; `timer_for_dead_hold` — a grant between G2 and
   G3 when the destroy thread handles the hold arms a lease timer for a hold that is already gone.
@@ -110,5 +112,56 @@ theorem timer_for_dead_hold :
 example : (run (init true) [.grantStep, .grantStep, .grantStep, .fire, .destroyStart, .cbStep, .destroyStep, .cbStep, .cbStep]).map
     (fun s => (s.held, s.timer, s.booked, s.d, s.cb, s.dirty)) = some (false, .none, false, .ddone, .none, false) := by
   decide
+
+/-! ### no-clear-on-disconnect (sequential server model M2) -/
+
+section noclear
+open Ldlm.Core
+variable {M : Type} (o : MapOps M) (c : Cfg)
+
+theorem abandonAll_keeps (ho : o.Lawful) (ps : List Pending) (e : Err) : ∀ (s : Core.St M) (ev : List Event),
+    (ps.foldl (fun (acc : Core.St M × List Event) p =>
+      let (s', ev) := abandon o acc.1 p e
+      (s', acc.2 ++ ev)) (s, ev)).1.timers = s.timers ∧
+    ∀ n, (o.get (ps.foldl (fun (acc : Core.St M × List Event) p =>
+      let (s', ev) := abandon o acc.1 p e
+      (s', acc.2 ++ ev)) (s, ev)).1.locks n).map (fun r => (r.size, r.keys)) = (o.get s.locks n).map (fun r => (r.size, r.keys)) := by
+  induction ps with
+  | nil => intro s ev; exact ⟨rfl, fun _ => rfl⟩
+  | cons p ps ih =>
+    intro s ev
+    simp only [List.foldl_cons]
+    obtain ⟨i1, i2⟩ := ih (abandon o s p e).1 (ev ++ (abandon o s p e).2)
+    refine ⟨i1.trans rfl, fun n => (i2 n).trans ?_⟩
+    unfold abandon
+    simp only
+    split
+    · rename_i r hg
+      rw [ho.get_set]
+      by_cases en : p.name = n
+      · subst en; simp [hg]
+      · simp [en]
+    · rfl
+
+/-- with no-clear-on-disconnect a session end keeps every lease and every holder -/
+theorem noclear_keeps (ho : o.Lawful) (hnc : c.noClear = true) (s : Core.St M) (sid : Sid) :
+    (Core.step o c s (.disconnect sid)).1.timers = s.timers ∧
+    ∀ n, (o.get (Core.step o c s (.disconnect sid)).1.locks n).map (fun r => (r.size, r.keys))
+      = (o.get s.locks n).map (fun r => (r.size, r.keys)) := by
+  simp only [Core.step]
+  have ha := abandonAll_keeps o ho (s.pending.filter (fun p => p.sid = sid)) .canceled s []
+  unfold abandonAll
+  generalize (List.foldl (fun (acc : Core.St M × List Event) p =>
+      let (s', ev) := abandon o acc.1 p Err.canceled
+      (s', acc.2 ++ ev)) (s, []) (s.pending.filter (fun p => p.sid = sid))) = a at ha ⊢
+  obtain ⟨s1, ev1⟩ := a
+  simp only at ha ⊢
+  unfold destroy
+  split
+  · exact ha
+  · simp only [hnc, true_or, if_true]
+    exact ha
+
+end noclear
 
 end Ldlm.Props.C06
